@@ -146,7 +146,17 @@ class C19(Prop):
         if r['code'] == 'value':
             custom[key] = code_val
         elif r['code'] == 'callable':
-            custom[key] = lambda: code_val
+            # "values supplied as functions are called": plain functions, but also bound methods, partials, builtins
+            import functools
+            kind = r['v'] % 4
+
+            class Holder:
+                def get(self):
+                    return code_val
+            custom[key] = [lambda: code_val, Holder().get, functools.partial(lambda v: v, code_val),
+                           [code_val].__reversed__ if False else Holder().get][kind]
+            if isinstance(code_val, str) and kind == 3:
+                custom[key] = code_val.__str__          # a builtin method wrapper
         elif r['code'] == 'none':
             custom[key] = None
         sources = (r['code'] in ('value', 'callable')) + bool(r['env']) + (key in ENV_BACKED or key in (
